@@ -445,13 +445,14 @@ func cases(tier string) []Case {
 }
 
 func Run(r *report.Run) {
-	r.Rule = "MySQL and PostgreSQL planners (connection-less DefaultPlan) and the TiDB planner (MySQL driver on a mocked TiDB connection; it plans change by change, default plan mode); one schema named with a unique marker; change sets from the real differ: every single edit of the differ universe (thorough: every compatible pair), create-all, drop-all, plus hand-built schema-level / two-schema change sets; x qualifier {not requested, empty, custom, the name of either schema involved} x plan mode {unset, in-place, deferred, dump}; every Cmd and every reverse statement is tokenised by our own quoted-identifier scanner; plus the `sql` template function of `schema inspect` / `schema diff` (cmd/atlas/internal/cmdlog, reached by a harness compiled into that module with go build -overlay): MySQL / PostgreSQL x connection bound to one schema or not x indent {none, two spaces, tab} x {inspect, diff}: a bound connection prints no schema name; plus an inspected slice: the real PostgreSQL inspector on a mocked connection bound to one schema (one table, a GIN index whose operator class lives in the connected schema / public / pg_catalog / a third schema), the inspected schema planned as create and drop under the empty qualifier; non-trivial = case whose plan has >=1 statement; distinct = (dialect, change set, qualifier, mode)"
+	r.Rule = "MySQL and PostgreSQL planners (connection-less DefaultPlan) and the TiDB planner (MySQL driver on a mocked TiDB connection; it plans change by change, default plan mode); one schema named with a unique marker; change sets from the real differ: every single edit of the differ universe (thorough: every compatible pair), create-all, drop-all, plus hand-built schema-level / two-schema change sets; x qualifier {not requested, empty, custom, the name of either schema involved} x plan mode {unset, in-place, deferred, dump}; every Cmd and every reverse statement is tokenised by our own quoted-identifier scanner; plus the `sql` template function of `schema inspect` / `schema diff` (cmd/atlas/internal/cmdlog, reached by a harness compiled into that module with go build -overlay): MySQL / PostgreSQL x connection bound to one schema or not x indent {none, two spaces, tab} x {inspect, diff}: a bound connection prints no schema name; plus an inspected slice: the real PostgreSQL inspector on a mocked connection bound to one schema (one table, a GIN index whose operator class lives in the connected schema / public / pg_catalog / a third schema), the inspected schema planned as create and drop under the empty qualifier; plus a Planner slice: migrate.NewPlanner with PlanWithSchemaQualifier {not given, empty, custom, the schema's own name} over a driver whose database is the universe's base schema, PlanSchema and CheckpointSchema: every statement of either plan carries the requested qualifier; non-trivial = case whose plan has >=1 statement; distinct = (dialect, change set, qualifier, mode)"
 	r.Assumptions = []string{
 		"table, enum-type and (PostgreSQL, in DROP/ALTER/COMMENT ON INDEX) index identifiers are recognised by name: the universe's names never collide with column or constraint names",
 		"change sets the connection-less planner cannot plan (needs a server) are counted as plan errors, not judged",
 	}
 	r.Set("formatter_renderings", RunFmt(r))
 	r.Set("inspected_cases", RunInspected(r))
+	r.Set("planner_cases", RunPlanner(r))
 	cs := cases(r.Tier)
 	perr := 0
 	stmts := 0
@@ -520,6 +521,19 @@ func Replay(r *report.Run, raw json.RawMessage) {
 		Case struct {
 			Insp *InspCase `json:"inspected"`
 		}
+	}
+	var pv struct {
+		Case struct {
+			P *PlannerCase `json:"planner"`
+		}
+	}
+	if json.Unmarshal(raw, &pv) == nil && pv.Case.P != nil {
+		r.Case("a", true)
+		r.Case("b", true)
+		if p, _ := evalPlanner(*pv.Case.P); len(p) > 0 {
+			r.Violate("", strings.Join(dedup(p), " | "), map[string]any{"planner": pv.Case.P})
+		}
+		return
 	}
 	if json.Unmarshal(raw, &iv) == nil && iv.Case.Insp != nil {
 		r.Case("a", true)
